@@ -215,7 +215,7 @@ pub fn run(run: &Run) {
     let mut table: Vec<(bool, String)> = Vec::new();
     table.extend(c07::table_exprs(false, false).into_iter().map(|e| (false, e)));
     table.extend(c07::table_exprs(false, true).into_iter().map(|e| (true, e)));
-    let step = run.tier.pick(5, 1);
+    let step = run.tier.pick(7, 1);
     let slice: Vec<&(bool, String)> = table.iter().step_by(step).collect();
     run.set_extra("degree_table_programs", json!(slice.len()));
     par_each(&slice, |i, (function, e)| {
@@ -266,7 +266,7 @@ pub fn run(run: &Run) {
         }
     }
     if run.tier == Tier::Quick {
-        run.assume("quick tier explores a slice of the operator tables (every 9th / 5th program); thorough explores every 2nd / every program");
+        run.assume("quick tier explores a slice of the operator tables (every 9th / 7th program); thorough explores every 2nd / every program");
     }
     run.assume("budget 0 (no pass at all) is included although the real time box can only fire after a pass");
 }
